@@ -847,8 +847,33 @@ func (c *cluster) tplLeaderConnClosed(rt *rapid.T) {
 	perm := rapid.Permutation(voters).Draw(rt, "roles")
 	f, x := perm[0], perm[1]
 	c.stats.class("tpl-leaderconnclosed")
+	// every delivery in here is scripted: the clock-based stability oracle judges
+	c.strictStability = true
+	defer func() { c.strictStability = false }()
 	c.step(vAct{A: "gate"})
 	c.step(vAct{A: "dlvamong", L: c.upIDs(), K: 6}) // quiesce
+	if len(voters) >= 3 && rapid.Bool().Draw(rt, "demotedInstead") {
+		// variant: f learns of its own demotion from the leader; what it does with its
+		// election timer from then on decides whether it forgets the leader too early
+		c.step(vAct{A: "adv", T: int64(rapid.SampledFrom([]int{700, 900, 950}).Draw(rt, "timerAge"))})
+		c.step(vAct{A: "cfg", N: ldr, M: f, S: "demote"})
+		// (only f hears of it: x still counts f as a voter and will ask for its vote)
+		for i := 0; i < 4 && !c.failed(); i++ {
+			c.step(vAct{A: "dlvamong", L: []uint64{ldr, f}, K: 1})
+		}
+		if fr := c.rf(f); fr == nil || fr.configs.Latest.isVoter(f) || c.anyLeader() != ldr {
+			c.tplBail()
+			return
+		}
+		c.stats.class("tpl-leaderconnclosed-demoted")
+		c.step(vAct{A: "adv", T: int64(rapid.SampledFrom([]int{600, 800, 950}).Draw(rt, "afterDemotion"))})
+		c.step(vAct{A: "poke", N: x, S: "main"})
+		for i := 0; i < 6 && !c.failed(); i++ {
+			c.step(vAct{A: "dlvpair", N: x, M: f, K: 1})
+		}
+		c.tplBail()
+		return
+	}
 	before := c.stats.count("wire-timeoutNow")
 	c.lastTN = tnConn{}
 	c.step(vAct{A: "xfer", N: ldr, M: f, T: 300})
